@@ -45,12 +45,12 @@ type request struct {
 }
 
 type response struct {
-	ID     string                 `json:"id"`
-	Result interface{}            `json:"result"`
-	Error  *string                `json:"error"`
-	Logs   map[string][]interface{} `json:"logs"`
-	Ms     int64                  `json:"ms"`
-	Overflow bool                 `json:"overflow"`
+	ID       string                   `json:"id"`
+	Result   interface{}              `json:"result"`
+	Error    *string                  `json:"error"`
+	Logs     map[string][]interface{} `json:"logs"`
+	Ms       int64                    `json:"ms"`
+	Overflow bool                     `json:"overflow"`
 }
 
 func canon(o object.Object, depth int) interface{} {
